@@ -55,7 +55,7 @@ var patPool = []string{
 var ignPool = []string{"", "", "^ab", `\.txt$`, `^d`}
 
 type Op struct {
-	K string `json:"k"` // create mkdir delete rename chmod append poll spoll
+	K string `json:"k"` // create mkdir mksock delete rename chmod append poll spoll
 	P int    `json:"p"`
 	Q int    `json:"q,omitempty"`
 	R bool   `json:"r,omitempty"`
@@ -68,7 +68,7 @@ type Obs struct {
 
 type Case struct {
 	Kind      string   `json:"kind"`
-	Init      []int    `json:"init"` // per path: 0 absent, 1 file, 2 directory
+	Init      []int    `json:"init"` // per path: 0 absent, 1 file, 2 directory, 3 file that cannot be opened, 4 socket
 	Pats      []string `json:"pats"`
 	Ignore    string   `json:"ignore"`
 	Glob      [][]bool `json:"glob"` // pattern x path (filepath.Match on absolute forms)
@@ -77,7 +77,7 @@ type Case struct {
 	NGen      int      `json:"ngen"` // the first NGen ops are the generated history, the rest is the fixed probe suffix
 	Obs       []Obs    `json:"obs"`  // after construction, then after every op
 	Delivered [][3]int `json:"delivered"`
-	Tree      [][2]int `json:"tree"` // per path: kind (0 absent 1 file 2 dir 3 unreadable file), model inode
+	Tree      [][2]int `json:"tree"` // per path: kind (0 absent 1 file 2 dir 3 unreadable file 4 socket), model inode
 	Hang      bool     `json:"hang,omitempty"`
 }
 
@@ -226,12 +226,24 @@ func (m *fsMirror) mkdir(p, ino int) {
 	m.inoOf[realIno(fi)] = ino
 }
 
+// mksock makes an entry that exists, is no directory and cannot be streamed:
+// a unix socket inode (as a daemon's control socket next to its logs).
+func (m *fsMirror) mksock(p, ino int) {
+	if err := syscall.Mknod(m.path(p), syscall.S_IFSOCK|0o644, 0); err != nil {
+		return
+	}
+	fi, _ := os.Lstat(m.path(p))
+	m.inoOf[realIno(fi)] = ino
+}
+
 func (m *fsMirror) apply(o Op, ino int) {
 	switch o.K {
 	case "create":
 		m.create(o.P, ino)
 	case "mkdir":
 		m.mkdir(o.P, ino)
+	case "mksock":
+		m.mksock(o.P, ino)
 	case "delete":
 		_ = os.Remove(m.path(o.P))
 	case "rename":
@@ -284,6 +296,11 @@ func execute(root string, serial int, c *Case) {
 			m.create(p, p+1)
 		case 2:
 			m.mkdir(p, p+1)
+		case 3:
+			m.create(p, p+1)
+			_ = os.Chmod(m.path(p), 0o200)
+		case 4:
+			m.mksock(p, p+1)
 		}
 	}
 	pats := instantiate(c.Pats, dir)
@@ -362,6 +379,8 @@ func execute(root string, serial int, c *Case) {
 			c.Tree = append(c.Tree, [2]int{0, 0})
 		case fi.IsDir():
 			c.Tree = append(c.Tree, [2]int{2, m.inoOf[realIno(fi)]})
+		case !fi.Mode().IsRegular():
+			c.Tree = append(c.Tree, [2]int{4, m.inoOf[realIno(fi)]})
 		default:
 			k := 1
 			if f, err := os.Open(m.path(p)); err != nil {
@@ -478,8 +497,12 @@ func checkOracle(out *vlib.Out, c *Case) {
 			if !matches(p) {
 				report("unmatched-path-tailed", fmt.Sprintf("after step %d %s matches no pattern but is tailed", step, names[p]))
 			}
-			if tree[p].kind == 2 && (kind == "spoll" || (step > 0 && !in(c.Obs[step-1].Tailed, p)) || step == 0) {
-				report("directory-tailed", fmt.Sprintf("after step %d (%s) directory %s is tailed", step, kind, names[p]))
+			if (tree[p].kind == 2 || tree[p].kind == 4) && (kind == "spoll" || (step > 0 && !in(c.Obs[step-1].Tailed, p)) || step == 0) {
+				cl, w := "directory-tailed", "directory"
+				if tree[p].kind == 4 {
+					cl, w = "socket-tailed", "socket"
+				}
+				report(cl, fmt.Sprintf("after step %d (%s) %s %s is tailed", step, kind, w, names[p]))
 			}
 		}
 		if kind == "poll" || step == 0 {
@@ -500,6 +523,10 @@ func checkOracle(out *vlib.Out, c *Case) {
 		case "mkdir":
 			if tree[o.P].kind == 0 {
 				tree[o.P] = node{2, 10 + k}
+			}
+		case "mksock":
+			if tree[o.P].kind == 0 {
+				tree[o.P] = node{4, 10 + k}
 			}
 		case "delete":
 			tree[o.P] = node{}
@@ -590,6 +617,10 @@ func checkOracle(out *vlib.Out, c *Case) {
 				if t[o.P].kind == 0 {
 					t[o.P] = node{2, 10 + k}
 				}
+			case "mksock":
+				if t[o.P].kind == 0 {
+					t[o.P] = node{4, 10 + k}
+				}
 			case "delete":
 				t[o.P] = node{}
 			case "rename":
@@ -625,6 +656,8 @@ func coqOp(o Op) string {
 		return vlib.App("Create", vlib.N(uint64(o.P)))
 	case "mkdir":
 		return vlib.App("Mkdir", vlib.N(uint64(o.P)))
+	case "mksock":
+		return vlib.App("Mksock", vlib.N(uint64(o.P)))
 	case "delete":
 		return vlib.App("Delete", vlib.N(uint64(o.P)))
 	case "rename":
@@ -699,7 +732,7 @@ var smallAlphabet = []Op{
 func fullAlphabet(chmod bool) []Op {
 	var a []Op
 	for p := range names {
-		a = append(a, Op{K: "create", P: p}, Op{K: "mkdir", P: p}, Op{K: "delete", P: p}, Op{K: "append", P: p}, Op{K: "append", P: p})
+		a = append(a, Op{K: "create", P: p}, Op{K: "mkdir", P: p}, Op{K: "mksock", P: p}, Op{K: "delete", P: p}, Op{K: "append", P: p}, Op{K: "append", P: p})
 		if chmod {
 			a = append(a, Op{K: "chmod", P: p, R: false}, Op{K: "chmod", P: p, R: true})
 		}
@@ -795,19 +828,36 @@ func main() {
 		}
 	}
 	exCfg := Case{Init: []int{1, 0, 1, 2}, Pats: []string{patPool[0], patPool[2], patPool[3]}, Ignore: ""}
-	var rec func(prefix []Op)
-	rec = func(prefix []Op) {
-		c := exCfg
+	var rec func(cfg Case, tag string, depth int, prefix []Op)
+	rec = func(cfg Case, tag string, depth int, prefix []Op) {
+		c := cfg
 		c.Ops = prefix
-		runCase(&c, "exhaustive")
-		if len(prefix) == maxLen {
+		runCase(&c, tag)
+		if len(prefix) == depth {
 			return
 		}
 		for _, o := range alpha {
-			rec(append(append([]Op{}, prefix...), o))
+			rec(cfg, tag, depth, append(append([]Op{}, prefix...), o))
 		}
 	}
-	rec(nil)
+	rec(exCfg, "exhaustive", maxLen, nil)
+	// the same alphabet, one level less, over trees in which an entry that
+	// matches the single pattern, is not ignored and cannot be streamed (a
+	// socket; a file that cannot be opened) sorts BEFORE and AFTER readable
+	// files: one un-tailable match must not keep the others from being tailed
+	unopenable := []Case{
+		{Init: []int{4, 1, 1, 2}, Pats: []string{patPool[0]}},  // a.log socket, ab.log file; $T/*.log
+		{Init: []int{1, 4, 1, 0}, Pats: []string{patPool[4]}},  // ab.log socket between a.log and c.txt; $T/*
+		{Init: []int{0, 1, 1, 4}, Pats: []string{patPool[4]}},  // a.log absent (created by the history), d.log socket last
+	}
+	if chmodOK {
+		unopenable = append(unopenable,
+			Case{Init: []int{3, 1, 1, 2}, Pats: []string{patPool[0]}}, // a.log cannot be opened, ab.log can
+			Case{Init: []int{1, 3, 1, 0}, Pats: []string{patPool[4], patPool[1]}})
+	}
+	for _, cfg := range unopenable {
+		rec(cfg, "exhaustive-unopenable", maxLen-1, nil)
+	}
 
 	// ---- 2. scenarios kept from findings (the corpus)
 	corpus := [][]Op{
@@ -843,8 +893,12 @@ func main() {
 			switch {
 			case p == 3:
 				c.Init[p] = 2 * rng.Intn(2)
-			case rng.Chance(65):
+			case rng.Chance(60):
 				c.Init[p] = 1
+			case rng.Chance(25):
+				c.Init[p] = 4
+			case rng.Chance(25) && chmodOK:
+				c.Init[p] = 3
 			case rng.Chance(15):
 				c.Init[p] = 2
 			}
@@ -859,6 +913,6 @@ func main() {
 		runCase(&c, "random")
 	}
 	out.Extra["leaked_tailers"] = leaked
-	out.Flush("histories of create/mkdir/delete/rename/chmod/append/pattern-poll/stream-poll over a real directory with 4 names (each may be a file or a directory), 1-3 patterns from a pool of absolute/relative/overlapping globs and an optional ignore regexp, each followed by a fixed probe suffix (pattern poll, one append per name, stream poll); exhaustive up to the stated length over a 13-operation alphabet for one configuration (3 overlapping patterns) plus random histories of length 1-8 over the full alphabet; a case is non-trivial when the set of tailed paths changes at least once after construction",
+	out.Flush("histories of create/mkdir/mksock/delete/rename/chmod/append/pattern-poll/stream-poll over a real directory with 4 names (each may be a file, a file that cannot be opened, a directory or a unix socket), 1-3 patterns from a pool of absolute/relative/overlapping globs and an optional ignore regexp, each followed by a fixed probe suffix (pattern poll, one append per name, stream poll); exhaustive up to the stated length over a 13-operation alphabet for one configuration (3 overlapping patterns), one level less for 3-5 single-pattern trees with an un-streamable matching entry sorting before / between / after readable files, plus random histories of length 1-8 over the full alphabet; a case is non-trivial when the set of tailed paths changes at least once after construction",
 		false)
 }
